@@ -269,7 +269,7 @@ func ngapPrimitiveSweep(ctx *Ctx, prop string) {
 		lb, ub int64
 		ext    bool
 	}
-	ostr := []sz{{1, 1, false}, {2, 2, false}, {3, 3, false}, {4, 4, false}, {8, 8, false}, {1, 3, false}, {3, 8, false}, {1, 150, true}, {1, 256, false}, {1, 257, false}, {1, 65535, false}, {0, -1, false}, {4, 4, true}, {0, 70000, false}}
+	ostr := []sz{{1, 1, false}, {2, 2, false}, {3, 3, false}, {4, 4, false}, {8, 8, false}, {1, 3, false}, {3, 8, false}, {1, 150, true}, {1, 256, false}, {1, 257, false}, {1, 65535, false}, {1, 65536, false}, {2, 65537, false}, {0, -1, false}, {4, 4, true}, {0, 70000, false}}
 	for _, z := range ostr {
 		tag := fmt.Sprintf("sizeLB:%d", z.lb)
 		if z.ub >= 0 {
@@ -314,7 +314,7 @@ func ngapPrimitiveSweep(ctx *Ctx, prop string) {
 			}
 		}
 	}
-	bstr := []sz{{22, 32, false}, {1, 160, true}, {1, 64, false}, {0, -1, false}, {1, 256, false}, {1, 65535, false}}
+	bstr := []sz{{22, 32, false}, {1, 160, true}, {1, 64, false}, {0, -1, false}, {1, 256, false}, {1, 65535, false}, {1, 65536, false}, {1, 131072, false}}
 	for n := int64(1); n <= 40; n++ {
 		bstr = append(bstr, sz{n, n, false})
 	}
@@ -382,7 +382,7 @@ func ngapPrimitiveSweep(ctx *Ctx, prop string) {
 	// SEQUENCE OF INTEGER(0..255)
 	// (ranges that are and are not powers of two: a count field that can hold ub+1 must still be refused)
 	for _, z := range []sz{{1, 8, false}, {1, 256, false}, {0, 3, false}, {1, 1, false}, {2, 2, false}, {1, 16, true}, {1, 65535, false}, {1, 1024, false},
-		{1, 12, false}, {0, 16, false}, {0, 4, false}, {1, 5, false}, {1, 100, false}, {1, 255, false}, {3, 9, false}, {1, 2048, false}, {1, 4096, false}, {1, 16384, false}, {0, 65535, false}} {
+		{1, 12, false}, {0, 16, false}, {0, 4, false}, {1, 5, false}, {1, 100, false}, {1, 255, false}, {3, 9, false}, {1, 2048, false}, {1, 4096, false}, {1, 16384, false}, {0, 65535, false}, {1, 65536, false}, {0, 65536, false}} {
 		tag := fmt.Sprintf("sizeLB:%d,sizeUB:%d,valueLB:0,valueUB:255", z.lb, z.ub)
 		if z.ext {
 			tag = "sizeExt," + tag
